@@ -15,6 +15,34 @@ const CSS_PIECES: &[&str] = &[
     ".a", " ", "{", "}", "(", ")", "[", "]", ":", ";", "@media", "@import", "\"", "'", "url(", "1rpx", "calc(", "+", "-", "/*", "*/", "\\", ":host", ",", "#", "\n", "\u{1F600}", "1e999rpx", "@",
 ];
 
+/// second family: every host tag x attribute name (prefixes and directives in lower / UPPER / Capitalised spelling) x value form
+const HOSTS: &[&str] = &["view", "block", "slot", "template", "include", "import", "wxs", "Comp-a"];
+const ATTR_NAMES: &[&str] = &[
+    "data-a", "data-", "data:a", "mark:a", "bind:a", "binda", "catch:a", "mut-bind:a", "capture-bind:a", "capture-catch:a", "capture-mut-bind:a", "model:a", "change:a",
+    "worklet:a", "generic:a", "extra-attr:a", "slot:a", "wx:if", "wx:elif", "wx:else", "wx:for", "wx:for-item", "wx:for-index", "wx:key", "wx:x", "class", "style", "id",
+    "slot", "src", "module", "name", "is", "data", "class:a", "style:a", "a:b:c", "a", "hidden",
+];
+const ATTR_VALUES: &[&str] = &["", "=\"\"", "=\"x\"", "=\"{{a}}\"", "=x", "='{{a}} b'"];
+fn case_variants(n: &str) -> Vec<String> {
+    let mut cap = String::new();
+    let mut up = true;
+    for c in n.chars() { if up { cap.extend(c.to_uppercase()); } else { cap.push(c); } up = c == '-' || c == ':'; }
+    vec![n.to_string(), n.to_uppercase(), cap]
+}
+fn attr_family() -> Vec<String> {
+    let mut v = vec![];
+    for h in HOSTS {
+        for n in ATTR_NAMES {
+            for nn in case_variants(n) {
+                for val in ATTR_VALUES {
+                    v.push(format!("<{} {}{}>x</{}>", h, nn, val, h));
+                    v.push(format!("<{} {}{} {}{}/>", h, nn, val, nn, val));
+                }
+            }
+        }
+    }
+    v
+}
 fn run_wxml(s: &str) {
     let mut g = TmplGroup::new();
     let _ = g.add_tmpl("p/t", s);
@@ -103,7 +131,19 @@ fn drive(kind: &'static str, pieces: &'static [&'static str], depth: usize) -> O
 
 pub fn search() -> Outcome {
     let depth: usize = std::env::var("VX_TOTAL_DEPTH").ok().and_then(|x| x.parse().ok()).unwrap_or(3);
-    let o = drive("wxml", WX_PIECES, depth);
+    std::panic::set_hook(Box::new(|_| {}));
+    let mut extra = 0u64;
+    for s in attr_family() {
+        extra += 1;
+        let s2 = s.clone();
+        if let Err(e) = std::panic::catch_unwind(move || run_wxml(&s2)) {
+            let msg = e.downcast_ref::<String>().cloned().or_else(|| e.downcast_ref::<&str>().map(|x| x.to_string())).unwrap_or_default();
+            return Outcome { found: true, input: format!("wxml\t{}", s), observed: format!("panic: {}", msg), expected: "returns normally".into(), evaluations: extra, bound: "attribute family: 8 hosts x 39 attribute names x 3 letter cases x 6 value forms x (paired | doubled self-closing)".into() };
+        }
+    }
+    let mut o = drive("wxml", WX_PIECES, depth);
+    o.evaluations += extra;
+    o.bound = format!("{} ; attribute family: 8 hosts x 39 attribute names x 3 letter cases x 6 value forms x 2 shapes", o.bound);
     if o.found {
         return o;
     }
